@@ -2113,6 +2113,11 @@ def make_history(ctx, stream, force_v2=False, compat_only=False):
             m = EDITS[name](rng, v2)
             if m:
                 names += [x["edit"] for x in (m if isinstance(m, list) else [m])]
+    if force_v2:      # flat-layout histories: stub files next to some implementations (merged by the loader; checked through the lines collection)
+        for spec in (c.old_spec, c.new_spec, v2):
+            for k_, (m_, mp_) in enumerate(iter_mods(spec)):
+                if k_ % 2 == 0:
+                    m_.stubs = True
     versions = [files_of(c.old_spec), files_of(c.new_spec), files_of(v2)]
     # every version carries the same module of @dataclass classes without an explicit __init__ (the built-in extension synthesises it at
     # load time; `griffe check` hands the SAME extension instances to the load of the old and of the new version); in half of the
@@ -2146,13 +2151,20 @@ def load_git_sources(ctx, k, h, repo, prefix, layout):
                     continue
                 bad = []
                 for f in h["versions"][int(ref[1])]:
-                    mpath = f[:-3].replace("/", ".")
+                    stem = f.rsplit(".", 1)[0]
+                    mpath = stem.replace("/", ".")
                     mpath = mpath[:-9] if mpath.endswith(".__init__") else mpath
                     if not mpath.startswith("pkg"):
                         continue
                     want = git(repo, "show", f"{ref}:{prefix}{f}").stdout
                     try:
-                        got = tree.modules_collection.get_member(mpath).source
+                        if f.endswith(".pyi"):
+                            # a stub next to its implementation is merged into the .py module (no loaded object has it as filepath):
+                            # what was read for it is in the lines collection, keyed by the file's path inside the temporary worktree
+                            hits = [ls for k_, ls in tree.lines_collection.items() if str(k_).replace(os.sep, "/").endswith("/" + prefix + f)]
+                            got = "\n".join(hits[0]) if len(hits) == 1 else f"<{len(hits)} entries in the lines collection>"
+                        else:
+                            got = tree.modules_collection.get_member(mpath).source
                     except Exception as e:  # noqa: BLE001
                         got = f"<{type(e).__name__}>"
                     if got.rstrip("\n") != want.rstrip("\n"):
